@@ -101,6 +101,21 @@ func genCommand(t *rapid.T) (text, kind string, valid bool) {
 		if rapid.Bool().Draw(t, "lextra") {
 			toks = append(toks, rapid.SampledFrom([]string{"privKeyNeeded", "LOGNAME=root", "x=y=z", "TouchlessSudoTime=30"}).Draw(t, "lx"))
 		}
+		// many more attributes than the documented ones, the documented ones anywhere among them
+		if rapid.IntRange(0, 7).Draw(t, "lmany") == 3 {
+			nf := rapid.SampledFrom([]int{26, 29, 30, 31, 40, 64, 100}).Draw(t, "lmanyN")
+			var filler []string
+			for i := 0; i < nf; i++ {
+				filler = append(filler, fmt.Sprintf("x%d=%d", i, i))
+			}
+			at := rapid.IntRange(0, nf).Draw(t, "lmanyAt")
+			toks = append(append(append([]string{}, filler[:at]...), toks...), filler[at:]...)
+			if rapid.Bool().Draw(t, "lmanyRot") {
+				// rotate so that the documented tokens straddle other positions
+				k := rapid.IntRange(0, len(toks)-1).Draw(t, "lmanyK")
+				toks = append(toks[k:], toks[:k]...)
+			}
+		}
 		sep := rapid.SampledFrom([]string{" ", " ", "  "}).Draw(t, "lsep")
 		return strings.Join(toks, sep), "legacy", valid
 	case 7:
@@ -397,7 +412,7 @@ func exec(c0 Case) (vh.Outcome, error) {
 	return out, nil
 }
 
-const rule = "SSH_ORIGINAL_COMMAND: JSON objects under the documented wire names (complete, member dropped, member retyped, extra look-alike members such as logName/clientIP, shuffled, with insignificant whitespace around the object), legacy text (version omitted / empty / valid / invalid, requester absent / without '@'), other JSON values (null, arrays, strings with ' req=a@b '), empty, bytes, legacy noise; LOGNAME empty / unicode / spaces; SSH_CONNECTION v4, v6, zone-suffixed, leading zeros, bracketed, empty, leading space, tab; argv 0..8 arguments partitioned at random from token lists (valid 3..6 tokens, wrong count, policy misplaced or misspelt, empty tokens). Each Case is evaluated twice. Oracle on success: LogName = LOGNAME != '', ClientIP = first field and valid without zone (net/netip), policy in {NONS,NSOK} = second-last token, handler = last token, version = independently parsed major.minor of the declared text (0.0 only when a legacy message has none), ReqUser/ReqHost = declared values, transaction id 10 hex digits and different between the two evaluations; inputs valid by construction must succeed. Non-trivial: accepted cases and refused cases whose command is a non-object JSON value; distinct by Case hash."
+const rule = "SSH_ORIGINAL_COMMAND: JSON objects under the documented wire names (complete, member dropped, member retyped, extra look-alike members such as logName/clientIP, shuffled, with insignificant whitespace around the object), legacy text (version omitted / empty / valid / invalid, requester absent / without '@', optionally among 26..100 further attributes), other JSON values (null, arrays, strings with ' req=a@b '), empty, bytes, legacy noise; LOGNAME empty / unicode / spaces; SSH_CONNECTION v4, v6, zone-suffixed, leading zeros, bracketed, empty, leading space, tab; argv 0..8 arguments partitioned at random from token lists (valid 3..6 tokens, wrong count, policy misplaced or misspelt, empty tokens). Each Case is evaluated twice. Oracle on success: LogName = LOGNAME != '', ClientIP = first field and valid without zone (net/netip), policy in {NONS,NSOK} = second-last token, handler = last token, version = independently parsed major.minor of the declared text (0.0 only when a legacy message has none), ReqUser/ReqHost = declared values, transaction id 10 hex digits and different between the two evaluations; inputs valid by construction must succeed. Non-trivial: accepted cases and refused cases whose command is a non-object JSON value; distinct by Case hash."
 
 func TestC14Params(t *testing.T) {
 	vh.Run(t, vh.Spec[Case]{Property: "C14", Name: "TestC14Params", Rule: rule, Gen: gen, Exec: exec})
